@@ -53,6 +53,10 @@ class ChipsMonitor:
             ctx.counters['raked_updates'] += 1
         if not st.status:
             ctx.counters['final_states_checked'] += 1
+            if st.board_count >= 3:
+                ctx.counters['final_states_with_3+_boards'] += 1
+            if len(st.hand_types) > 1:
+                ctx.counters['final_states_of_split_games'] += 1
             if any(st.bets):
                 self._viol(st, op, ctx, 'final-bets', 'chips left in front of players at the end')
             if any(p.unraked_amount for p in pots):
